@@ -328,6 +328,19 @@ func enumC17(c *lib.Ctx, yield func(c17Case) bool) {
 			return
 		}
 	}
+	// k=4 on the same assembly: a third eviction queues behind the one in
+	// flight while its transaction slot is free for the fourth request
+	for _, f := range lib.Pick(c, []flushFilter{fs[0]}, []flushFilter{fs[0], fs[1], fs[2]}) {
+		ok := enumScripts(wr, 4, func(ops []simx.MemOp) bool {
+			if !ops[0].Write || !ops[1].Write {
+				return true
+			}
+			return yield(c17Case{Cfg: slow, Ops: ops, Filter: f, Cut: -1})
+		})
+		if !ok {
+			return
+		}
+	}
 	k := lib.Pick(c, 2, 3)
 	for _, cfg := range cfgs {
 		for _, f := range c17Filters(lines) {
